@@ -67,6 +67,20 @@ PROPS["C11"] = adm_prop("c11", 1500, 40000, "C11_namespace (P11): create rejecte
 PROPS["C12"] = adm_prop("c12", 1500, 40000, "C12_dry_run (P12) for any cap, timeout, population, ownership pattern and expiry index: at most cap evaluations, in the prioritised order (one pod per controller before siblings: C12_prioritise), the truncation line says exactly k of n, and the report is exactly that of the pods checked (C12_warnings_exact); C12_deadline: the lister's deadline is min(request deadline, now + min(timeout, remaining/2)). Real cap 3000/1s and small caps via hook H3; the deadline seen by the lister is checked on the Go side against a scheduling-proof interval.",
     partial="that the Go runtime fires the timer and stops within one second of wall time is not expressible in the model; proved: deadline arithmetic and that the loop stops at the first observation of expiry")
 
+PROPS["C13"] = {
+    "streams": [{"name": "c13", "n_quick": 500, "n_thorough": 15000}],
+    "level_text": "C13_reasons: every denying built-in revision gives a non-empty reason that does not even contain the placeholder; C13_aggregate + C13_eval + C13_revisions_once: for the regenerated table (computed order condition) the evaluator returns at (level, version) exactly the standard's revisions, each once, in the fixed table order whatever the pod, and the aggregate texts list the denying ones in that order; C13_names: the names a detail lists are offenders, every explicit offender is listed, implicit ones when they are the only cause, volumes exactly; C13_detail_lists_names: the rendered text contains the quoted list. On the implementation the names are parsed out of the real detail text and P13 is evaluated on pods violating random subsets of controls with duplicate and prefix-sharing names.",
+    "level_note": POD_NOTE + " The harness regexp that extracts the quoted name list from a detail string is trusted; names containing a double quote are outside the hypothesis (DNS labels).",
+    "assumptions": ["container and volume names contain no double quote (API validation: DNS labels)"],
+}
+PROPS["C14"] = {
+    "streams": [{"name": "c14", "n_quick": 400, "n_thorough": 10000, "race": True}],
+    "level_text": "C14_revision_map_order / C14_evaluator_map_order: for every registered revision and the assembled evaluator (any table), the full result - allow bit, reason and detail text, in order - is identical for every iteration order of the annotation map (any permutation of an association list with unique keys); C14_set_order / C14_sort_order: every internal set and sort is a function of the set/multiset of inserted elements. Purity is by construction in the model; on the implementation each pod is evaluated 8 times and from 16 goroutines under the race detector, deep-compared before and after, and the model must reproduce the exact text from a pod whose annotations are listed in a shuffled order.",
+    "level_note": POD_NOTE,
+    "partial": "in-place mutation of the input and data races are facts about the Go runtime that a pure model cannot exhibit: they are observed (DeepEqual before/after, -race build), not proved",
+    "assumptions": ["Go maps have unique keys"],
+}
+
 # properties not yet claimed (kept current as checks are added)
 NOT_APPLICABLE = [
     {"property_id": p, "reason": "check under construction in this session: model/theorems not yet committed (see DESIGN.md section 7 for the planned statement)"}
